@@ -18,7 +18,7 @@ pub struct FixedProg {
 /// Every program defines FNA (succeeds), FNZ (fails inside its body, parameter named like a
 /// variable the program reads later) on its first line and sets Y to 1.
 pub fn fixed_programs() -> Vec<FixedProg> {
-    let head = "1 DEF FNA(Q)=Q+1: DEF FNZ(Y)=Y/0: DEF FNW(X)=FNZ(X)+1: Y=1: X=2: A$=\"s\": DEF FNV(Y)=";
+    let head = "1 DEF FNA(Q)=Q+1: DEF FNZ(Y)=Y/0: DEF FNW(X)=FNZ(X)+1: DEF FNU(X)=FNA(X)*2: Y=1: X=2: A$=\"s\": DEF FNV(Y)=";
     vec![
         FixedProg {
             name: "nested FOR",
@@ -75,6 +75,12 @@ pub fn fixed_programs() -> Vec<FixedProg> {
             lines: vec![head, "20 GOSUB 100: PRINT \"r\";W;Y: END", "100 IF Y THEN INPUT W ELSE PRINT \"no\"", "110 RETURN"],
             replies: vec!["8"],
         },
+        // arrays the program dimensions only later
+        FixedProg {
+            name: "DIM after the first statements",
+            lines: vec![head, "20 PRINT \"a\";X;", "30 DIM D(20): D(15)=1: DIM E$(12)", "40 E$(12)=\"e\": PRINT D(15);E$(12)"],
+            replies: vec![],
+        },
         // the frame stack is full when the inner statements run: an inspection that calls a
         // function is refused there and must leave nothing behind
         FixedProg {
@@ -92,7 +98,11 @@ pub fn fixed_programs() -> Vec<FixedProg> {
     ]
 }
 
-pub const INSPECTIONS: [&str; 18] = [
+pub const INSPECTIONS: [&str; 21] = [
+    // a call that succeeds two functions deep; refused array stores (nothing may come to exist)
+    "PRINT FNU(3)",
+    "D(1)=\"X\"",
+    "E$(1)=7",
     // the generator is program state too: a refused call and a repeated value leave it alone
     "PRINT RND(-1)",
     "PRINT RND(0);FNA(RND(0-2))",
